@@ -41,6 +41,37 @@ type c30Case struct {
 	Tamper   string       `json:"tamper,omitempty"` // flip | truncate | append | wrongsha
 	TamperAt int          `json:"tamper_at"`        // per-mille position
 	TamperBit int         `json:"tamper_bit"`
+	// Entropy > 0 appends a binary column holding that many pseudo-random
+	// bytes per row (generated in the run from EntropySeed, so the case stays
+	// small): data a compressor cannot shrink — hashes, embeddings, blobs.
+	Entropy     int   `json:"entropy,omitempty"`
+	EntropySeed int64 `json:"entropy_seed,omitempty"`
+}
+
+// withEntropy returns b plus a column of incompressible bytes.
+func withEntropy(b lib.BatchM, perRow int, seed int64) lib.BatchM {
+	x := uint64(seed)*2685821657736338717 + 88172645463325252
+	bb := array.NewBinaryBuilder(lib.Mem, arrow.BinaryTypes.Binary)
+	buf := make([]byte, perRow)
+	for r := int64(0); r < b.Rec.NumRows(); r++ {
+		for i := range buf {
+			x ^= x << 13
+			x ^= x >> 7
+			x ^= x << 17
+			buf[i] = byte(x >> 24)
+		}
+		bb.Append(buf)
+	}
+	col := bb.NewArray()
+	sch := b.Rec.Schema()
+	md := sch.Metadata()
+	fields := append(append([]arrow.Field{}, sch.Fields()...), arrow.Field{Name: "zz_entropy", Type: arrow.BinaryTypes.Binary})
+	cols := append(append([]arrow.Array{}, b.Rec.Columns()...), col)
+	rec := array.NewRecordBatch(arrow.NewSchema(fields, &md), cols, b.Rec.NumRows())
+	if b.Meta.Len() > 0 {
+		rec = lib.WithMeta(rec, b.Meta.Keys(), b.Meta.Values())
+	}
+	return lib.PackBatch(rec).Unpack()
 }
 
 func genUserMeta(t *rapid.T, label string) arrow.Metadata {
@@ -104,6 +135,10 @@ func genC30(t *rapid.T) c30Case {
 		}
 		if rapid.IntRange(0, 3).Draw(t, "tamper?") == 0 {
 			c.Tamper = []string{"flip", "truncate", "append"}[rapid.IntRange(0, 2).Draw(t, "tamper")]
+		}
+		if rapid.IntRange(0, 3).Draw(t, "entropy?") == 0 {
+			c.Entropy = []int{64, 512, 4096}[rapid.IntRange(0, 2).Draw(t, "entropy")]
+			c.EntropySeed = int64(rapid.IntRange(1, 1<<30).Draw(t, "entropyseed"))
 		}
 	} else {
 		c.Mode = "stream"
@@ -263,6 +298,10 @@ func c30Config(st vgirpc.ExternalStorage, thr int64, c c30Case) *vgirpc.External
 
 func runC30(c c30Case) (out lib.Outcome) {
 	orig := c.Batch.Unpack()
+	if c.Entropy > 0 && c.Mode == "roundtrip" {
+		orig = withEntropy(orig, c.Entropy, c.EntropySeed)
+		out.Label("incompressible-column")
+	}
 	defer orig.Rec.Release()
 	out.Label("mode:" + c.Mode)
 	if c.Tamper != "" {
@@ -506,12 +545,12 @@ func runC30Stream(c c30Case, orig lib.BatchM, out *lib.Outcome) {
 
 var propC30 = lib.Prop[c30Case]{
 	ID: "C30",
-	Rule: "roundtrip cases: generated batch (1-5 columns of any supported type incl. nested/dictionary, 1-48 rows, user schema/field/batch metadata), threshold = the batch's buffer size (top-level or with children) -64..+64 or far away, zstd off/levels, " +
+	Rule: "roundtrip cases: generated batch (1-5 columns of any supported type incl. nested/dictionary, 1-48 rows, user schema/field/batch metadata, optionally a column of 64-4096 incompressible bytes per row), threshold = the batch's buffer size (top-level or with children) -64..+64 or far away, zstd off/levels, " +
 		"optional tampering of the stored object; stream cases: pointer to a harness-assembled stream of 0-5 {data, log, EXCEPTION, pointer} batches in any order, checksum present/absent/wrong, bytes flipped/truncated/appended, zstd on/off. " +
 		"Non-trivial: a non-data batch follows the data batch in the fetched stream, or the threshold is within 64 bytes of the batch size.",
 	Gen: genC30,
 	Run: runC30,
-	Essential: []string{"near-threshold", "nondata-after-data", "roundtrip-ok", "below-threshold", "at-or-above-threshold", "tampered-refused",
+	Essential: []string{"near-threshold", "incompressible-column", "nondata-after-data", "roundtrip-ok", "below-threshold", "at-or-above-threshold", "tampered-refused",
 		"expect:checksum-refusal", "expect:pointer-refusal", "expect:no-data-refusal", "expect:data", "compress"},
 	EssentialMin: 300,
 	Assumptions: []string{
